@@ -120,7 +120,11 @@ func TestVerif_C06_Bookkeeping(t *testing.T) {
 				return !rejected[a.Unmap().String()]
 			},
 		}
-		localSpecs := []duoSockSpec{{Kind: simKindHost}, {Kind: simKindRelayish}, {V6: true, Kind: simKindHost}, {Kind: simKindSrflx}}
+		localSpecs := []duoSockSpec{{Kind: simKindHost}, {Kind: simKindRelayish}, {V6: true, Kind: simKindHost}, {Kind: simKindSrflx}, {Kind: simKindTCPHost}}
+		if rapid.Bool().Draw(rt, "tcpLocalFirst") {
+			localSpecs[0], localSpecs[4] = localSpecs[4], localSpecs[0]
+		}
+		signalledTCPActiveOnly := map[string]bool{} // "type|addrport" signalled with tcptype active and never otherwise
 		s, err := newSoloSim(cfg, nil, epSpecs)
 		if err != nil {
 			rt.Fatalf("harness: %v", err)
@@ -180,7 +184,8 @@ func TestVerif_C06_Bookkeeping(t *testing.T) {
 				}
 				foundL, foundR := false, false
 				for _, l := range v.locals {
-					if l == p.localPtr {
+					// (a pair created on the inbound path holds the candidate through its embedded base: same object)
+					if l == p.localPtr || c17Base(l) == c17Base(p.localPtr) {
 						foundL = true
 					}
 				}
@@ -190,7 +195,7 @@ func TestVerif_C06_Bookkeeping(t *testing.T) {
 					}
 				}
 				if !foundL || !foundR {
-					fail("C06/pairs/stale-candidate", "pair %d (%s→%s): local current=%v remote current=%v", p.id, p.local, p.remote, foundL, foundR)
+					fail("C06/pairs/stale-candidate", "pair %d (%s→%s): local current=%v remote current=%v; pair local %v, listed locals %v", p.id, p.local, p.remote, foundL, foundR, p.localPtr, v.locals)
 				}
 			}
 			if !v.byIDOK || v.byIDLen != len(v.pairs) {
@@ -202,6 +207,18 @@ func TestVerif_C06_Bookkeeping(t *testing.T) {
 			for i, r := range v.remotes {
 				if r.TCPType() == TCPTypeActive {
 					fail("C06/remotes/tcp-active-admitted", "remote %s has tcptype active", r)
+				}
+				if r.NetworkType().IsTCP() && signalledTCPActiveOnly[fmt.Sprintf("%s|%s", r.Type(), r.addrPort())] {
+					fail("C06/remotes/tcp-active-admitted", "remote %s was signalled with tcptype active only (TCPType() reports %q)", r, r.TCPType())
+				}
+				if r.Type() == CandidateTypePeerReflexive {
+					for _, o := range v.remotes {
+						if o != r && o.Type() != CandidateTypePeerReflexive && o.NetworkType() == r.NetworkType() && o.addrPort() == r.addrPort() && o.addrPort().IsValid() && o.TCPType() == r.TCPType() {
+							// (a TCP candidate's direction is part of what pion compares: a passive and an active
+							// candidate on one ip:port are two candidates)
+							fail("C06/remotes/prflx-not-superseded", "peer-reflexive remote %s is listed next to the signalled candidate %s with the same transport address", r, o)
+						}
+					}
 				}
 				if rejected[r.addrPort().Addr().Unmap().String()] {
 					fail("C06/remotes/filtered-address-admitted", "remote %s (%s) is rejected by the remote IP filter", r, r.Type())
@@ -236,6 +253,7 @@ func TestVerif_C06_Bookkeeping(t *testing.T) {
 			idAddr = map[uint64]string{}
 			prflxSeen = map[netip.AddrPort]bool{}
 			signalled = map[netip.AddrPort]bool{}
+			signalledTCPActiveOnly = map[string]bool{}
 			nextLocal = 0
 			maxID = 0 // ids need only be unique within a generation
 		}
@@ -325,7 +343,7 @@ func TestVerif_C06_Bookkeeping(t *testing.T) {
 					lbl["prflx-then-signalled"] = true
 					after := c06Take(s.ag.a)
 					for _, bp := range before.pairs {
-						if bp.remote != addr || bp.rtype != CandidateTypePeerReflexive {
+						if bp.remote != addr || bp.rtype != CandidateTypePeerReflexive || bp.rnt != cand.NetworkType() {
 							continue
 						}
 						found := false
@@ -349,11 +367,30 @@ func TestVerif_C06_Bookkeeping(t *testing.T) {
 				}
 			case "addRemoteTCP":
 				ei := rapid.IntRange(0, 3).Draw(rt, "ep")
-				tt := rapid.SampledFrom([]TCPType{TCPTypeActive, TCPTypePassive}).Draw(rt, "tcptype")
+				tt := rapid.SampledFrom([]TCPType{TCPTypeActive, TCPTypePassive, TCPTypePassive, TCPTypeSimultaneousOpen}).Draw(rt, "tcptype")
 				ap := s.eps[ei].pub
-				cand, err := NewCandidateHost(&CandidateHostConfig{Network: "tcp", Address: ap.Addr().String(), Port: int(ap.Port()), Component: 1, TCPType: tt})
+				// as it arrives through signalling: text; RFC 6544 allows tcptype on every candidate type
+				ttyp := rapid.SampledFrom([]string{"host", "host", "srflx", "relay"}).Draw(rt, "tcpCandidateType")
+				text := fmt.Sprintf("candidate:77 1 tcp 1518280447 %s %d typ %s", ap.Addr(), ap.Port(), ttyp)
+				if ttyp != "host" {
+					text += " raddr 10.0.0.7 rport 9"
+				}
+				if ttyp == "host" || rapid.IntRange(0, 2).Draw(rt, "withTCPType") != 0 {
+					text += " tcptype " + tt.String()
+				} else {
+					tt = TCPTypeUnspecified // reflexive / relay TCP candidates are also signalled without a direction
+				}
+				cand, err := UnmarshalCandidate(text)
 				if err != nil {
-					rt.Fatalf("harness: %v", err)
+					rt.Fatalf("harness: %q: %v", text, err)
+				}
+				key := fmt.Sprintf("%s|%s", cand.Type(), ap)
+				if tt == TCPTypeActive {
+					if _, seen := signalledTCPActiveOnly[key]; !seen {
+						signalledTCPActiveOnly[key] = true
+					}
+				} else {
+					signalledTCPActiveOnly[key] = false
 				}
 				_ = s.ag.a.AddRemoteCandidate(cand)
 				if !waitNoAddRemoteGoroutine() {
@@ -361,7 +398,7 @@ func TestVerif_C06_Bookkeeping(t *testing.T) {
 					rt.Fatalf("VERIF-INCONCLUSIVE: AddRemoteCandidate goroutine still running")
 				}
 				lbl["tcp-remote"] = true
-				s.ops = append(s.ops, fmt.Sprintf("addRemoteTCP(%s %s)", s.eps[ei].name(), tt))
+				s.ops = append(s.ops, fmt.Sprintf("addRemoteTCP(%s %s %s)", s.eps[ei].name(), ttyp, tt))
 			case "inboundRequest":
 				if len(s.ag.socks) == 0 {
 					continue
@@ -446,7 +483,7 @@ func TestVerif_C06_Bookkeeping(t *testing.T) {
 				n, err := conn.WriteToPair(p.id, []byte("payload-for-pair"))
 				out := s.w.emittedSince(from, 0)
 				if p.state == CandidatePairStateSucceeded {
-					if err != nil || n == 0 || len(out) != 1 || out[0].dst != p.remote || out[0].src.cand != p.localPtr {
+					if err != nil || n == 0 || len(out) != 1 || out[0].dst != p.remote || c17Base(out[0].src.cand) != c17Base(p.localPtr) {
 						st.Fail(rt, "C06/writetopair/wrong-route", "%s: WriteToPair(%d) = %d,%v emitted %v; pair is %s→%s", where, p.id, n, err, out, p.local, p.remote)
 					}
 					lbl["write-to-pair"] = true
